@@ -123,7 +123,7 @@ let () =
         let ok = np_flip_ok n ax in
         { model = ok_list (flip_slices dim ax);
           spec = (if ok then ok_list (List.map (fun k -> if np_flipped dim ax k then z_of_int (-1) else z_of_int 1) (zrange dim)) else unspec);
-          dom = ok && List.for_all (fun x -> Z.leb Z0 x) (axes_of ax) }
+          dom = ok }
     | _ -> failwith "flip_slices");
   (* ------------------------------------------------------------ views *)
   let reshape_h a = match a with
@@ -222,7 +222,7 @@ let () =
     | [src; ax] -> let (s, data) = getA src and ax = axarg ax in
         let ok = np_flip_ok (n_of s) ax in
         { model = show_view s data (flip_view ax s); spec = sp_flip s data ax;
-          dom = ok && posb s && List.for_all (fun x -> Z.leb Z0 x) (axes_of ax) }
+          dom = ok && posb s }
     | _ -> failwith "flip" in
   register "flip" flip_h; register "flip_eval" flip_h; register "flip_ct" flip_h;
   register "flip2" (fun a -> match a with
